@@ -55,6 +55,22 @@ claim("C20", "exploration", "mocks",
       "Held on the executions of the run. Not demanded: an outcome for a message without expectation; behaviour on a failing partitioner; messages of a SendMessages batch after its first failing expectation.",
       "DESIGN.md §7 C20")
 
+claim("C03", "exploration", "cons",
+      "runtime monitor of the real PartitionConsumer against the simulated cluster whose fetch answers are written by an independent reference writer (record batches, legacy v0/v1, compressed wrappers, batches starting before the start offset, partial trailing data); exact-sequence oracle on delivered messages, bounded-progress verdict in logical steps, race detector",
+      "Enumerated core (partial record cut at byte positions of the answer x format; every literal start offset of a small log) plus seeded scenarios: log content x framing x Kafka version x start offset (oldest/newest/literal) x per-fetch fault word x reader pace x channel buffer x 1-3 partitions on 1-2 brokers. Delivered messages must equal the visible log suffix field by field; after the fault word is exhausted delivery must reach the end (stalled = 300 further error-free fetch answers without a delivery, or nothing moving).",
+      "Held on the executions of the run. Delivery after OFFSET_OUT_OF_RANGE is not demanded; compaction gaps are not modelled; Fetch.Max stays 0.",
+      "DESIGN.md §7 C03")
+claim("C11", "exploration", "cons",
+      "runtime monitor: transactional logs with a faithful aborted-transaction index and last stable offset served by the simulated cluster; reference view of committed / non-transactional records; fetch offsets observed to move past control and aborted records",
+      "Enumerated core (4 transaction patterns x every start offset x batch size x isolation level) plus seeded logs with 1-4 producer ids, overlapping / back-to-back / aborted-then-committed / open transactions, shuffled aborted index, C03's faults and paces.",
+      "Held on the executions of the run; versions >= 0.11.",
+      "DESIGN.md §7 C11")
+claim("C18", "fault_enumeration", "prod",
+      "runtime monitor: recording / mutating / panicking interceptor chains on the real producer (enumerated fault words, retries at depth 1-3, chaser markers) and on the real consumer (slow-reader path forced by reader pace, observed through the pc.expired hook); exactly-once oracle per message pointer / offset and on the wire / delivered payload",
+      "Producer: C01's enumerated core and random scenarios with chains of 1-4 interceptors; consumer: C03 scenarios with slow readers. Each interceptor must run exactly once per application message, in order, never for markers; mutations must appear exactly once; a panicking interceptor must not break the chain or the pipeline.",
+      "Held on the executions of the run.",
+      "DESIGN.md §7 C18")
+
 def main():
     props = [json.loads(l) for l in open(os.path.join(HERE, "properties.jsonl"))]
     ids = [p["id"] for p in props]
@@ -95,7 +111,7 @@ def main():
         else:
             man["not_applicable"].append({"property_id": pid, "reason": na.get(pid, "check not built yet in this session (runtime monitor planned in DESIGN.md §7); not claimed")})
     for e, ps in sorted(engines.items()):
-        man["engines"].append({"name": e, "path": "/verif/cmd/vworker/%s.go" % e, "serves_properties": ps,
+        man["engines"].append({"name": e, "path": "/verif/cmd/vworker/ (engine %s)" % e, "serves_properties": ps,
                                "kind_free_text": "workload generator + runtime monitors, run in child processes by bin/vrun"})
     json.dump(man, open(os.path.join(HERE, "MANIFEST.json"), "w"), indent=1)
     print("claimed:", sorted(CLAIMED), "not claimed:", [i for i in ids if i not in CLAIMED])
